@@ -33,10 +33,10 @@ CASE_TIMEOUT = 1200
 
 
 def plan(tier, seed):
-    n = 800 if tier == "quick" else 20000
+    n = 800 if tier == "quick" else 10000
     B = 8
     specs = [{"part": "history", "seed": seed, "lo": i, "hi": min(n, i + B)} for i in range(0, n, B)]
-    m = 24 if tier == "quick" else 300
+    m = 24 if tier == "quick" else 150
     specs += [{"part": "handover", "seed": seed, "i": i, "tier": tier} for i in range(m)]
     return specs
 
